@@ -309,6 +309,16 @@ def run_check(run, tier):
 
 
 def finish(run):
+    seek_fail = [x for x in run.pending_failures if '/seek_until/' in x[0]]
+    if seek_fail:
+        outs = native({'kind': 'seek_search'}, timeout=900)
+        run.bounded.append({'what': 'bounded native search for seek_until (refute mode only)', 'tried': outs.get('tried'), 'bound': outs.get('bound'),
+                            'found': bool(outs.get('found'))})
+        f = outs.get('found')
+        if f:
+            for x in seek_fail:
+                run.pending_failures.remove(x)
+                run.violation(x[0], {'request': f['request'], 'native': f, 'solver_output': '%s (%s)' % (x[1], x[2])}, True, what='seek_until: ' + f.get('what', ''))
     out = native({'kind': 'truncation_search', 'seed': run.seed, 'budget': 40 if run.tier == 'quick' else 200}, timeout=900)
     run.bounded.append({'what': 'native truncation sweep: every cut offset of small version-2 and version-3 dumps under a read budget (refute mode only)',
                         'cuts_tried': out.get('tried'), 'bound': out.get('bound'), 'found': bool(out.get('found'))})
